@@ -142,6 +142,8 @@ func loadUniverse(name, repo, dir string, tests bool) *Universe {
 
 func loadUniverseOverlay(name, repo, dir string, tests bool, overlay map[string][]byte, soft bool) *Universe {
 	os.Unsetenv("GOWORK")
+	normalisedNotes = nil
+	overlay = stageTableOverlay(dir, overlay)
 	cfg := &packages.Config{
 		Mode:    packages.LoadAllSyntax,
 		Dir:     dir,
@@ -221,6 +223,7 @@ func loadUniverseOverlay(name, repo, dir string, tests bool, overlay map[string]
 	}
 	u.computeRenames()
 	u.computeNewHelpers()
+	u.Renames = append(u.Renames, normalisedNotes...)
 	return u
 }
 
